@@ -112,6 +112,40 @@ def same_args(ctx, name: str, track: str) -> None:
     ctx.rep.check(ok, rule, f"{f.qualname}/append", "the formatted command is appended once, unmodified", "the appended record is not exactly the formatted command", where=f.where())
 
 
+def _order_evaluated(ctx, v, what: str) -> bool:
+    """The ascending-order rejection of the EVO validator decided by interpretation (rules/init_model.py; nothing of the
+    repository is executed): descending and repeated selections must end in a ValueError raised by the validator's own
+    statements, ascending ones must be returned."""
+    from . import init_model as IM
+    from .c10 import _tip_table
+
+    try:
+        members = _tip_table(ctx, "C13.one-to-one")
+    except AnalysisInconclusive:
+        return False
+    enums = {"Tip": dict(members)}
+
+    def T(name):
+        return IM.EnumVal(members[name], "Tip", name)
+
+    good = [(["A01", "B01"], [1, 2]), (["A01", "C01", "H01"], [2, 5, 8]), (["B02"], [3])]
+    if what == "tips":
+        bad = [(["A01", "B01"], [2, 1]), (["A01", "B01"], [1, 1]), (["A01", "B01", "C01"], [1, 3, 2]), (["A01", "B01"], [T("T3"), 3]), (["A01", "B01"], [3, T("T3")]),
+               (["A01", "B01"], [1, T("T1")]), (["A01", "B01"], [T("T2"), T("T2")]), (["A01", "B01", "C01"], [1, 2, 2]), (["A01", "B01"], [5, T("T3")])]
+        good += [(["A01", "B01"], [3, T("T4")]), (["A01", "B01"], [T("T1"), 8])]
+    else:
+        bad = [(["B01", "A01"], [1, 2]), (["A01", "A01"], [1, 2]), (["A01", "C01", "B01"], [1, 2, 3])]
+    for cases, want in ((good, "return"), (bad, "raise")):
+        for wells, tips in cases:
+            params = dict(wells=wells, labware_position=(30, 2), volume=10.0, liquid_class="Water", tips=tips, arm=0, max_volume=950)
+            if not set(params) <= set(v.params):
+                return False
+            kind, val = IM.run_function(v, params, ctx.prog, enums)
+            if kind != want or (want == "raise" and val != "ValueError"):
+                return False
+    return True
+
+
 def selection_array(ctx) -> None:
     """evo_make_selection_array marks exactly the named wells of a rows x columns grid and fails on a well that is not in
     the grid (a KeyError of the index lookup): grid and index map are built for (rows, columns) in that order, every named
@@ -251,6 +285,10 @@ def one_to_one(ctx) -> None:
             raw_ok, _ = _strict_guard(fv, {what})
             if raw_ok:
                 weak = f"the ascending-order check is applied to the raw `{what}` argument, not to the converted `{next(iter(names))}` that is returned and encoded"
+        if not ok and not weak and _order_evaluated(ctx, v, what):
+            ctx.rep.holds(rule, f"{v.qualname}/ascending-{what}[evaluated]", f"{what} that are descending or repeated are refused with ValueError, ascending ones accepted (evaluation table, "
+                          "the guard is written in a form the structural test does not know)", where=w)
+            continue
         ctx.rep.check(ok, rule, f"{v.qualname}/ascending-{what}", f"{what} that are not strictly ascending raise ValueError",
                       (weak or f"no guard rejects {what} that are not in strictly ascending order") + f": the i-th volume slot (tip order), the i-th selected well (row order) and the tracking pair ({what}[i], volumes[i]) can disagree", where=w)
     # wells flattened column-major; lengths agree
